@@ -126,7 +126,7 @@ type traceOp struct {
 
 type stats struct {
 	replaced, evicted, chained, midPassAdd, boundary63, boundary64, resetWithPending bool
-	scheduleCalls                                                                   int
+	scheduleCalls                                                                    int
 }
 
 type machine struct {
